@@ -7004,11 +7004,17 @@ class Device(utils.CompositeEventEmitter):
 
     @with_connection_from_handle
     def on_gatt_pdu(self, connection: Connection, pdu: bytes):
+        # Conveniently, even-numbered op codes are client->server and
+        # odd-numbered ones are server->client
+        if pdu and not pdu[0] & 1 and connection.gatt_server is not None:
+            # (the server parses the PDU itself: a request that cannot be parsed still
+            # has to be answered)
+            connection.gatt_server.on_gatt_pdu_bytes(connection, pdu)
+            return
+
         # Parse the L2CAP payload into an ATT PDU object
         att_pdu = att.ATT_PDU.from_bytes(pdu)
 
-        # Conveniently, even-numbered op codes are client->server and
-        # odd-numbered ones are server->client
         if att_pdu.op_code & 1:
             if connection.gatt_client is None:
                 logger.warning(
